@@ -40,7 +40,10 @@ def safe_to_evaluate(root, ctx=None):
     return X.magnitude_bits(S.shadow(root), sig) is not None
 
 
-def step(rec, node, rule, check_original=False):
+_ASK = [0]
+
+
+def step(rec, node, rule, check_original=False, listed=False):
     """One search-agent step: clone the whole tree via the node, apply the rule to the
     copy.  Returns the new root or None if the application raised.  With
     check_original, decides the C07/C09 clause 'the tree the copy was cloned from is not
@@ -49,10 +52,15 @@ def step(rec, node, rule, check_original=False):
     if check_original:
         before = S.idshadow(root)
         ids = {id(n) for n in S.nodes_preorder(root)}
-    try:
-        rule.can_apply_to(node)   # the agent pattern: ask on the live tree, rewrite a clone of it
-    except Exception:
-        pass
+    # two agent patterns: (1) ask about this node on the live tree, then rewrite a clone of it;
+    # (2) the node came out of the rule's own listing (find_nodes asked about EVERY node, this one
+    # not last) and is applied without asking again.  Listed nodes alternate between the two.
+    _ASK[0] += 1
+    if not listed or _ASK[0] % 2:
+        try:
+            rule.can_apply_to(node)
+        except Exception:
+            pass
     copy = node.clone_from_root()
     try:
         change = rule.apply_to(copy)
@@ -107,7 +115,7 @@ def apply_everywhere(rec, root, rules, rng, cap=6, check_original=False):
         if len(nodes) > cap:
             nodes = rng.sample(nodes, cap)
         for n in nodes:
-            new_root = step(rec, n, rule, check_original)
+            new_root = step(rec, n, rule, check_original, listed=True)
             out.append((label, getattr(n, "r_index", None), new_root))
     return out
 
@@ -118,15 +126,46 @@ def inplace_chain(rec, root, rules, rng, steps=6, big=False, on_step=None):
     them.  Aliased or dangling nodes left behind by one step are then acted on by the next."""
     cur = root.clone()
     done = []
+    previous = []
     for _ in range(steps):
         cands = []
+        # the listing is usually made on the whole tree, sometimes only on a part of it (one side of
+        # an equation, one operand): find_nodes numbers the nodes of whatever it was given
+        scope = cur
+        if rng.random() < 0.3:
+            parts = [c for c in (cur.left, cur.right) if c is not None and (c.left is not None or c.right is not None)]
+            if parts:
+                scope = rng.choice(parts)
+                if rng.random() < 0.4:
+                    inner = [n for n in S.nodes_preorder(scope) if n.left is not None or n.right is not None]
+                    scope = rng.choice(inner)
+                rec.arm("inplace:listed-on-a-subtree")
         for label, rule in rules:
             try:
-                nodes = rule.find_nodes(cur)
+                nodes = rule.find_nodes(scope)
             except Exception:
                 continue
             if nodes:
                 cands.append((label, rule, nodes))
+        # an agent may also act on a node from the listing it made BEFORE the last step, as long as
+        # the node is still part of the tree and the rule still applies there
+        stale = []
+        if previous and rng.random() < 0.3:
+            reachable = {id(m) for m in S.nodes_preorder(cur)}   # (a replaced node keeps a stale parent pointer)
+            for label, rule, nodes in previous:
+                live = []
+                for n in nodes:
+                    try:
+                        if id(n) in reachable and rule.can_apply_to(n):
+                            live.append(n)
+                    except Exception:
+                        pass
+                if live:
+                    stale.append((label, rule, live))
+        previous = cands
+        if stale:
+            cands = stale
+            rec.arm("inplace:node-from-the-previous-listing")
         if not cands:
             break
         label, rule, nodes = rng.choice(cands)
@@ -148,6 +187,32 @@ def inplace_chain(rec, root, rules, rng, steps=6, big=False, on_step=None):
     rec.arm("inplace-chains")
     rec.arm("inplace-chain-steps", len(done))
     return cur, done
+
+
+def apply_from_subtree_listing(rec, root, rules, rng, cap=2):
+    """The listing is made on ONE operand / one side of the equation only (find_nodes numbers the
+    nodes of the subtree it is given, from 0), and each listed node is then rewritten in place in
+    the whole tree.  Every application starts from a fresh clone of `root`."""
+    for label, rule in rules:
+        for side in ("left", "right"):
+            try:
+                tree = root.clone()
+                part = getattr(tree, side)
+                if part is None or (part.left is None and part.right is None):
+                    continue
+                n_found = len(rule.find_nodes(part))
+            except Exception:
+                continue
+            for k in range(min(cap, n_found)):
+                try:
+                    tree = root.clone()
+                    nodes = rule.find_nodes(getattr(tree, side))
+                    if k >= len(nodes):
+                        break
+                    rec.arm("apply:listed-on-one-side-only")
+                    rule.apply_to(nodes[k if rng.random() < 0.5 else len(nodes) - 1 - k])
+                except (Exception, RecursionError):
+                    pass
 
 
 def replay_apply(w):
@@ -222,7 +287,7 @@ class Episode:
             label, rule, nodes = self.rng.choice(cands)
             node = self.rng.choice(nodes)
         index = getattr(node, "r_index", None)
-        new_root = step(rec, node, rule)
+        new_root = step(rec, node, rule, listed=True)
         self.steps.append((label, index))
         self.rules_used.add(label)
         if new_root is None:
